@@ -6,6 +6,7 @@ cd /verif
 trap 'git -C /repo checkout -- .' EXIT
 for d in seeded/*/; do
   n=$(basename $d); id=${n%%_*}
+  if grep -q '"retired"' $d/meta.json 2>/dev/null; then echo "$n: retired (see meta.json)"; continue; fi
   if ! git -C /repo apply --check /verif/$d/patch.diff 2>/dev/null; then echo "$n: PATCH DOES NOT APPLY"; continue; fi
   git -C /repo apply /verif/$d/patch.diff
   ./check $id --tier quick > $d/final_check.log 2>&1; rc=$?
